@@ -256,6 +256,32 @@ def p_machine_and_entry_defaults():
     return [canon(Machine(2, 2)), canon(RTE({Routes.north}, 1, 0xf)), canon(ContextMixin().get_context_arguments())]
 
 
+class _NoSocket(object):
+    """stands in for SCPConnection while controllers are constructed (no datagram is ever sent)"""
+    def __init__(self, *a, **k):
+        pass
+
+    def close(self):
+        pass
+
+
+def _controllers(**kw):
+    import rig.machine_control.machine_controller as mcm
+    import rig.machine_control.bmp_controller as bmm
+    real = mcm.SCPConnection, bmm.SCPConnection
+    mcm.SCPConnection = bmm.SCPConnection = _NoSocket
+    try:
+        return mcm.MachineController("nowhere", **kw.get("mc", {})), bmm.BMPController("nowhere", **kw.get("bmp", {}))
+    finally:
+        mcm.SCPConnection, bmm.SCPConnection = real
+
+
+def p_controller_default_contexts():
+    """the contextual arguments in force in a newly constructed MachineController / BMPController (default initial context)"""
+    mc, bc = _controllers()
+    return [canon(mc.get_context_arguments()), canon(bc.get_context_arguments())]
+
+
 PROBES = dict((n[2:], f) for n, f in sorted(globals().items()) if n.startswith("p_"))
 
 
@@ -344,6 +370,15 @@ def h_objects():
     e.sources.add(Routes.north)
     cm = ContextMixin()
     cm.update_current_context(x=1, y=2)
+    mc, bc = _controllers()                     # controllers used before: their base context was updated, blocks entered
+    mc.update_current_context(app_id=30, x=1, y=2)
+    bc.update_current_context(board=5)
+    with mc(p=3):
+        mc.update_current_context(p=4)
+    given = {"x": 7}
+    mc2, bc2 = _controllers(mc={"initial_context": given}, bmp={"initial_context": {"cabinet": 1}})
+    mc2.update_current_context(y=8)
+    bc2.update_current_context(frame=2)
     vs, vr, nets, machine, cons = graph(3000, cores=4)
     keys = {n: (i * 3, 0xffffffff) for i, n in enumerate(nets)}
     apps = {v: "other" for v in vs}
